@@ -235,6 +235,9 @@ func (fp *FuncProof) RelCheck() {
 	}
 	ex := fp.ex
 	fnName := fp.eng.displayName(fp.fn)
+	if len(fp.paths) > 0 {
+		fp.traceSig(fp.paths[0]) // initialise the grow-block table before going parallel
+	}
 	type group struct {
 		c      *Cut
 		startA *State
@@ -297,8 +300,11 @@ func (fp *FuncProof) RelCheck() {
 				}
 				var match []*PathEnd
 				sigA := fp.traceSig(pa)
+				loose := len(fp.cuts) == 0 // straight-line wrappers: the two runs may branch differently on the scratch parameter
 				for _, pb := range g.pathsB {
-					if sameShape(pa, pb) && fp.traceSig(pb) == sigA {
+					if loose && pa.Kind == pb.Kind {
+						match = append(match, pb)
+					} else if sameShape(pa, pb) && fp.traceSig(pb) == sigA {
 						match = append(match, pb)
 					}
 				}
